@@ -17,6 +17,14 @@ package bitcoin
 //@   inv !isnil(self.point) && self.point.isValid && abs(self.point) != O && lift(affy(abs(self.point))) % 2 == 0
 //@   inv len(self.xBytes) == 32 && os2ip(self.xBytes[0:32]) == lift(affx(abs(self.point)))
 //@
+//@ func PreHashSchnorrMessage
+//@   props C13 C14 C18
+//@   split case result1 == nil
+//@   ensures (validutf8(name) && strlen(name) != 0) <==> (result1 == nil)
+//@   ensures result1 == nil ==> len(result0) == 32 && os2ip(result0[0:32]) == bip340_h0(strabs(name), bstr(msg))
+//@   ensures result1 != nil ==> result0 == nil
+//@   fresh result0
+//@
 //@ func schnorrTaggedHash
 //@   props C13 C14
 //@   inline
